@@ -126,6 +126,9 @@ class EqEx(Extractor):
         self.model = model
         self.clipped = 0
 
+    def on_name(self, name, env):
+        return self.ctx.sym(name)
+
     def on_call(self, node, fname, args, kwargs, env):
         ctx = self.ctx
         if fname == "self.psi_func":
